@@ -242,3 +242,41 @@ def merge_appends_all(db, ctx):
     ctx.ob("Grammar::merge|whole-table", ok and not adapt and not cond,
            "Grammar::merge grows pos_list with `%s` (calls: %s); filtering adaptor: %s; conditional logic: %s — every entry must be appended" % (
                arg, [c["method"] for c in calls], adapt, cond), fn=f)
+
+
+@rule("C12.merged-oov-id", "a katakana run merged by concat_oov_nodes is out-of-vocabulary as soon as ANY part is: its word id is the maximum over the ids "
+                           "of all merged nodes (OOV ids compare greater), replaced by the OOV id of that dictionary number otherwise — taking the id of one "
+                           "node only reports a word no dictionary contains with that node's dictionary number")
+def merged_oov_id(db, ctx):
+    from ..loops import iterations, chain as lchain
+    from ..inline import range_bounds
+    from ..db import deref_all
+    f = db.view(db.one("concat_oov_nodes", None))
+    acc = False
+    for itn in iterations(f.hir):
+        ch, base = lchain(db, f, itn["it"])
+        b = deref_all(base)
+        whole = isinstance(b, dict) and b.get("k") == "Index" and local_name(b["e"]) == "path" and range_bounds(b["i"]) == ("begin", "end")
+        for x, _ in walk(itn["body"]):
+            if x.get("k") in ("Assign", "MethodCall") and mentions(x, lambda y: y.get("k") == "MethodCall" and y.get("method") == "max") and \
+                    mentions(x, lambda y: y.get("k") == "MethodCall" and y.get("method") == "word_id") and whole:
+                acc = True
+    # fold / map().max() forms
+    for c, _ in walk(f.hir):
+        if c.get("k") == "MethodCall" and c.get("method") in ("max", "fold", "max_by_key") and mentions(c, lambda y: y.get("k") == "MethodCall" and y.get("method") == "word_id"):
+            ch, base = lchain(db, f, c["recv"])
+            b = deref_all(base)
+            if isinstance(b, dict) and b.get("k") == "Index" and local_name(b["e"]) == "path" and range_bounds(b["i"]) == ("begin", "end"):
+                acc = True
+    ctx.ob("concat_oov_nodes|id=max-over-all-parts", acc, "the merged word id accumulates max(node.word_id()) over path[begin..end]: %s" % acc, fn=f)
+    oov_fix = any(n.get("k") == "If" and mentions(n["cond"], lambda y: y.get("k") == "MethodCall" and y.get("method") == "is_oov") for n, _ in walk(f.hir)) and \
+        any(is_call(c) and path_ends(callee(c) or "", "WordId::new") and mentions(c, lambda y: y.get("k") == "Path" and (y.get("path") or "").endswith("MAX_WORD")) for c, _ in walk(f.hir))
+    ctx.ob("concat_oov_nodes|non-oov-id-becomes-oov-of-that-dictionary", oov_fix,
+           "when no part is OOV the merged id becomes WordId::new(dic, MAX_WORD): %s" % oov_fix, fn=f)
+
+
+@rule("C12.reference-bounds", "a split / word-structure reference equal to the size of the dictionary it points into is rejected by the compiler (re-evaluation "
+                              "of C06.validate: validate_wid rejects exactly word >= size)")
+def reference_bounds(db, ctx):
+    from . import C06
+    C06.validate(db, ctx)
